@@ -151,7 +151,7 @@ def symids(n, base=0, step=1):
     return [Sym.const(base + step * i) for i in range(n)]
 
 
-def path(eng, acc, task):
+def path(eng, acc, task, focus='C16'):
     op = task['op']
     wrap = op in ('rename_node', 'rename_edge') or (op == 'add' and task['scheme'] in ('fresh', 'nodes_collide_edges_fresh', 'nodes_fresh_edges_collide'))
     if wrap:
@@ -276,15 +276,29 @@ def path(eng, acc, task):
         return
     if not cons:
         fails.append(f'graph inconsistent after {op}')
+    if focus == 'C20':
+        # compactness only: simplification never increases a layer width (= bond dimension)
+        if op in ('simplify', 'seq2', 'merge', 'add'):
+            try:
+                w_after = W.layer_widths(g)
+            except Exception:
+                return
+            if op == 'add':
+                bound = [a + b for a, b in zip(widths0, W.layer_widths(other))] if other is not None else widths0
+                bound[0] = bound[-1] = 1
+            else:
+                bound = widths0
+            acc.inc('nontrivial_paths')
+            eng.mark('simplify_width_checked')
+            if len(w_after) != len(bound) or any(a > b for a, b in zip(w_after, bound)):
+                candidate(eng, acc, task, 'graph_c20', f'c20:{op}:width', f'a layer width increased: {bound} -> {w_after}', inputs)
+        return
     goals = [d for _, d in W.words_diff(w1, ref)]
     if prover.prove_escalating(eng, goals, rounds=(1, 2, 3), acc=acc, label='vc_words') != 'proved':
         fails.append(f'{op} changed the denoted operator')
     if op in ('simplify', 'seq2', 'merge'):
         if len(g.nodes) > n0 or len(g.edges) > e0:
             fails.append('number of nodes/edges increased')
-        w_after = W.layer_widths(g)
-        if len(w_after) != len(widths0) or any(a > b for a, b in zip(w_after, widths0)):
-            fails.append(f'a layer width increased: {widths0} -> {w_after}')
     acc.inc('nontrivial_paths')
     if acc.get('#samples') < 3 and len(desc['edges']) >= 3:
         acc.add('samples', sample(eng, task, dict(graph=desc, nodes_edges_before=(n0, e0), after=(len(g.nodes), len(g.edges)))))
